@@ -129,6 +129,11 @@ def gen_cases(rng, tier):
                 for bt in range(1, smax + 1):
                     for _ in range(2):
                         cases.append(_gen_case(rng, dim, False, border, bt, bt, bt, 3))
+    # --- the product mode with EQUAL batch sizes (where a pairing would also be well-formed): time = border, time =
+    # interior, all three equal -- in every run, both dimensions
+    for dim in (1, 2):
+        for (bt, b, bb) in [(2, 3, 2), (3, 3, 2), (2, 2, 2)] + ([] if tier == "quick" else [(3, 2, 3), (4, 4, 4), (1, 1, 1)]):
+            cases.append(_gen_case(rng, dim, True, True, bt, b, bb, 2))
     # --- malformed stream: pairing requested with unequal batch sizes (must be rejected), and near misses
     for dim in (1, 2):
         for (bt, b, bb) in [(2, 3, 2), (3, 2, None), (2, 2, 1), (2, 2, 3), (2, 2, 2), (1, 2, 1), (3, 3, None)]:
